@@ -468,22 +468,32 @@ def poser_protos():
     one = [(c, s) for c in ("A", "B") for s in (0, 1, 2)]
     specs += [(x,) for x in one] + [(x, y) for x in one for y in one]
     data = np.zeros((8, 2))
-    setups = []
-    for spec in specs:
-        ss = SingleSetup(data, 10.0)
-        algs = []
-        for j, (c, s) in enumerate(spec):
-            a = (AlgA if c == "A" else AlgB)(name=f"a{j}", p=1)
-            if s >= 1:
-                a.result = FR()
-            if s == 2:
-                a.result = FR(Fn=np.array([1.0]), Phi=np.ones((2, 1)))
-            algs.append(a)
-        if algs:
-            ss.add_algorithms(*algs)
-        setups.append(ss)
-    _POSER.update(specs=specs, setups=setups)
+    # two legal ways of filling a setup with the same algorithms in the same order: one add_algorithms call with all of them
+    # (form 0), or one call per algorithm (form 1); "identical order" in the statement is the order in which they were added
+    setups = {0: [], 1: []}
+    for form in (0, 1):
+        for spec in specs:
+            ss = SingleSetup(data, 10.0)
+            algs = []
+            for j, (c, s) in enumerate(spec):
+                a = (AlgA if c == "A" else AlgB)(name=f"a{j}", p=1)
+                if s >= 1:
+                    a.result = FR()
+                if s == 2:
+                    a.result = FR(Fn=np.array([1.0]), Phi=np.ones((2, 1)))
+                algs.append(a)
+            if algs and form == 0:
+                ss.add_algorithms(*algs)
+            for a in (algs if form == 1 else []):
+                ss.add_algorithms(a)
+            setups[form].append(ss)
+    _POSER.update(specs=specs, setups=setups[0], setups_by_form=setups)
     return _POSER
+
+
+def poser_forms(combo, nn):
+    """Way of filling each setup of a constructor input, fixed by the input itself (rotation over position, spec index, names)."""
+    return [(k + i + nn) % 2 for k, i in enumerate(combo)]
 
 
 def poser_expected(specs, names):
@@ -516,8 +526,11 @@ def poser_slice(item):
         for tail in itertools.product(*rest) if nset >= 1 else [()]:
             combo = ((f,) + tuple(tail)) if nset >= 1 else ()
             sp = [specs[i] for i in combo]
-            ss = [setups[i] for i in combo]
             for nn in range(4):
+                forms = poser_forms(combo, nn)
+                ss = [P["setups_by_form"][fm][i] for fm, i in zip(forms, combo)]
+                if len(set(forms)) > 1 and any(len(s) > 1 for s in sp):
+                    t.outcomes["poser-input-mixes-one-call-and-one-call-per-algorithm-setups"] += 1
                 names = [f"n{k}" for k in range(nn)]
                 want = poser_expected(sp, names)
                 t.evaluations += 1
@@ -530,7 +543,7 @@ def poser_slice(item):
                     got, exc = False, None
                 except Exception as e:
                     got, exc = False, e
-                case = {"poser": {"specs": sp, "names": names}}
+                case = {"poser": {"specs": sp, "names": names, "forms": forms}}
                 if exc is not None:
                     t.violation(f"poser:wrong-exception:{type(exc).__name__}", f"PoSER constructor raised {type(exc).__name__}: {exc} instead of ValueError for setups {sp}, names {names}", case)
                 elif got != want:
@@ -593,7 +606,8 @@ def explore(ctx):
     finally:
         shutil.rmtree(scratch, ignore_errors=True)
     ctx.require("ok:add", "ok:run", "ok:runall", "ok:mpe", "saveload-equal", "rejected:run:NOPAR", "rejected:run:absent",
-                "rejected:mpe:ok", "rejected:runall:ok", "ok:decoy", "ok:add2", "ok:prep", "ok:readd", "poser-accepted", "poser-rejected")
+                "rejected:mpe:ok", "rejected:runall:ok", "ok:decoy", "ok:add2", "ok:prep", "ok:readd", "poser-accepted", "poser-rejected",
+                "poser-input-mixes-one-call-and-one-call-per-algorithm-setups")
 
 
 def replay(case):
@@ -618,7 +632,8 @@ def replay_poser(p):
     t = Tally()
     want = poser_expected(sp, p["names"])
     try:
-        MultiSetup_PoSER(ref_ind=[[0]] * len(idx), single_setups=[P["setups"][i] for i in idx], names=list(p["names"]))
+        forms = p.get("forms") or [0] * len(idx)
+        MultiSetup_PoSER(ref_ind=[[0]] * len(idx), single_setups=[P["setups_by_form"][fm][i] for fm, i in zip(forms, idx)], names=list(p["names"]))
         got, exc = True, None
     except ValueError:
         got, exc = False, None
